@@ -46,6 +46,8 @@ def earlier(pid):
     for m in sorted(glob.glob(os.path.join(ROOT, "seeded", pid + "-*", "meta.json"))):
         items.append(json.load(open(m)).get("summary") or "")
     for m in sorted(glob.glob("/tmp/seed*/%s_out/meta*.json" % pid)):
+        if "/seedB" in m or os.path.dirname(os.path.dirname(m)) == out.rstrip("/"):
+            continue
         try:
             s = json.load(open(m)).get("summary") or ""
         except Exception:
